@@ -28,6 +28,15 @@ type VM struct {
 
 	// moduleCodeFinder - HOWTO get the source code of a module
 	moduleCodeFinder ModuleCodeFinder
+
+	// errorTrace - the call frames that were active when the error that is currently
+	// propagating was raised. A failed call pops its frame while the error propagates
+	// (so that the caller's bookkeeping stays correct when the error is handled later);
+	// the error report still needs the frames of the moment of failure.
+	errorTrace []*CallFrame
+	// unwinding - true from the first frame popped by a propagating error until the
+	// next frame is pushed or the next statement starts
+	unwinding bool
 }
 
 type ElementMap = map[string]Element
@@ -102,6 +111,7 @@ func (vm *VM) CheckDepedency(name string) error {
 // PushCallFrame - push a call frame onto the call stack
 // and update the current call stack cursor accordingly.
 func (vm *VM) PushCallFrame(callFrame *CallFrame) {
+	vm.unwinding = false
 	vm.callStack = append(vm.callStack, callFrame)
 	vm.csCount += 1
 	vm.csModuleID = callFrame.module.GetID()
@@ -122,6 +132,24 @@ func (vm *VM) PopCallFrame() {
 }
 
 func (vm *VM) GetCallStack() []*CallFrame {
+	return vm.callStack[:vm.csCount]
+}
+
+// PopCallFrameOnError - pop the frame of a call that failed.
+// The frames active at the moment of the failure are remembered for the error report.
+func (vm *VM) PopCallFrameOnError() {
+	if !vm.unwinding {
+		vm.errorTrace = append([]*CallFrame{}, vm.callStack[:vm.csCount]...)
+		vm.unwinding = true
+	}
+	vm.PopCallFrame()
+}
+
+// GetErrorTrace - call frames that were active when the propagating error was raised
+func (vm *VM) GetErrorTrace() []*CallFrame {
+	if vm.unwinding {
+		return vm.errorTrace
+	}
 	return vm.callStack[:vm.csCount]
 }
 
@@ -176,6 +204,7 @@ func (vm *VM) EndScope() {
 
 // SetCurrentLine
 func (vm *VM) SetCurrentLine(line int) {
+	vm.unwinding = false
 	frame := vm.getCurrentCallFrame()
 	if frame != nil {
 		frame.SetCurrentLine(line)
